@@ -76,7 +76,7 @@ func ruleAtomic(r *core.Reporter) {
 			r.Undecided("atomic/"+shortName(w), "", "no access to %s found: field renamed or its type changed away from an atomic discipline", shortName(w))
 		}
 	}
-	if missing == 0 && r.Floor("atomic field accesses", n, 20) {
+	if missing == 0 && r.Floor("atomic field accesses", n, 10) {
 		r.Held("atomic-discipline", n, "%d accesses to %d atomic fields, all through sync/atomic", n, len(seenFields))
 	}
 	// the field types themselves
@@ -257,7 +257,7 @@ func ruleBucketLock(r *core.Reporter) {
 			}
 		}
 	}
-	if r.Floor("rateBucket.data accesses", n, 8) && bad == 0 {
+	if r.Floor("rateBucket.data accesses", n, 3) && bad == 0 {
 		r.Held("rateBucket/locking", n, "%d map accesses under the lock; insertion in the same critical section as its lookup", n)
 	}
 }
